@@ -3018,20 +3018,36 @@ impl<'a, R: FileManager> FrontendCtx<'a, R> {
         }
     }
     fn extract_union(&self, tp: Runtype) -> Result<Vec<Runtype>, DiagnosticInfoMessage> {
+        self.extract_union_following(tp, &mut vec![])
+    }
+    fn extract_union_following(
+        &self,
+        tp: Runtype,
+        following: &mut Vec<RuntypeUUID>,
+    ) -> Result<Vec<Runtype>, DiagnosticInfoMessage> {
         match tp.kind {
             RuntypeKind::AnyOf(v) => {
                 let mut vs = vec![];
                 for item in v {
-                    let extracted = self.extract_union(item)?;
+                    let extracted = self.extract_union_following(item, following)?;
                     vs.extend(extracted);
                 }
                 Ok(vs)
             }
             RuntypeKind::Ref(r) => {
+                // a union alias that mentions itself (type C = C | B) adds nothing the second time
+                if following.contains(&r) {
+                    return Ok(vec![]);
+                }
                 let v = self.partial_validators.get(&r);
                 let v = v.and_then(|it| it.clone());
                 match v {
-                    Some(v) => self.extract_union(v),
+                    Some(v) => {
+                        following.push(r);
+                        let res = self.extract_union_following(v, following);
+                        following.pop();
+                        res
+                    }
                     None => Err(DiagnosticInfoMessage::CannotResolveRefInExtractUnion(r)),
                 }
             }
